@@ -1441,3 +1441,117 @@ func isLookupOK(p *Prog, v ssa.Value, depth int) bool {
 	}
 	return false
 }
+
+// lookupOKField: the field whose map the ok of `x, ok := recv.field[k]` was
+// looked up in (through small pair-returning helpers), or nil.
+func lookupOKField(p *Prog, v ssa.Value, depth int) *types.Var {
+	e, ok := v.(*ssa.Extract)
+	if !ok || depth > 2 {
+		return nil
+	}
+	switch t := e.Tuple.(type) {
+	case *ssa.Lookup:
+		if e.Index == 1 && t.CommaOk {
+			f, _ := fieldLoad(t.X)
+			return f
+		}
+	case *ssa.Call:
+		sf := t.Call.StaticCallee()
+		if sf == nil || !p.isRepoFn(sf) || len(sf.Blocks) == 0 || len(sf.Blocks) > 4 {
+			return nil
+		}
+		var f *types.Var
+		for _, in := range instrsOf(sf) {
+			if r, isR := in.(*ssa.Return); isR && e.Index < len(r.Results) {
+				g := lookupOKField(p, r.Results[e.Index], depth+1)
+				if g == nil || (f != nil && f != g) {
+					return nil
+				}
+				f = g
+			}
+		}
+		return f
+	}
+	return nil
+}
+
+// guardedUp: the instruction is guarded in its own function, or every call of
+// its (statically called, repo-internal) function is.
+func (p *Prog) guardedUp(in ssa.Instruction, pred guardPred, depth int) bool {
+	if p.guardedBy(in, pred) != nil {
+		return true
+	}
+	if depth >= 3 {
+		return false
+	}
+	fn := in.Parent()
+	for fn.Parent() != nil {
+		fn = fn.Parent()
+	}
+	n := p.CG.Nodes[fn]
+	if n == nil {
+		return false
+	}
+	sites := 0
+	for _, e := range n.In {
+		if e.Caller.Func == nil || !p.isRepoFn(e.Caller.Func) || e.Site == nil {
+			continue
+		}
+		if e.Caller.Func.Synthetic != "" && p.CG.Nodes[e.Caller.Func] != nil && len(p.CG.Nodes[e.Caller.Func].In) == 0 {
+			continue
+		}
+		if e.Site.Common().StaticCallee() != fn {
+			return false
+		}
+		sites++
+		if !p.guardedUp(e.Site, pred, depth+1) {
+			return false
+		}
+	}
+	return sites > 0
+}
+
+// DOM/one-sub-per-rid (C08): a connection has one Subscription object per
+// resource ID — the direct count, the reference counts and the held-back events
+// live on it. A new object is registered under a resource ID only where the
+// lookup of that ID found nothing: a second object for an ID still registered
+// orphans the first (its count can no longer be released, its events go to an
+// object the client does not see).
+func ruleOneSubPerRID(c *Ctx) {
+	p := c.P
+	fSubs := p.Field("server.wsConn.subs")
+	if fSubs == nil {
+		c.undecided("server.wsConn.subs", "anchor", "-", "not found")
+		return
+	}
+	n := 0
+	for _, fn := range p.Repo {
+		for _, in := range instrsOf(fn) {
+			mu, ok := in.(*ssa.MapUpdate)
+			if !ok {
+				continue
+			}
+			if f, _ := fieldLoad(mu.Map); f != fSubs {
+				continue
+			}
+			n++
+			c.inst(1)
+			absent := func(i *ssa.If) (bool, bool) {
+				v := i.Cond
+				neg := false
+				if u, ok := v.(*ssa.UnOp); ok && u.Op == token.NOT {
+					v, neg = u.X, true
+				}
+				if lookupOKField(p, v, 0) == fSubs {
+					return neg, true
+				}
+				return false, false
+			}
+			c.check(p.guardedUp(mu, absent, 0), fnName(fn), "a subscription is registered under a resource ID only where the lookup of that ID found none", p.InstrPos(mu),
+				"dominated by the not-found edge of the lookup in the same map", "a second Subscription object can be registered for a resource ID that still has one: the first one's counts can no longer be released and its events reach no client-visible state")
+		}
+	}
+	if n == 0 {
+		c.viol("server.wsConn.subs", "a subscription is registered under a resource ID only where the lookup of that ID found none", "-", "no registration found")
+	}
+}
